@@ -38,29 +38,27 @@ def tokenCleaner (infos : List (TokInfo F)) (toks : List (Tok F)) : List (Tok F)
   let i := cleanerIndex infos
   toks.take i ++ (toks.drop i).filter (fun t => !t.isText)
 
-/-- the `while` loop of `missing_token_adder`: insert `+` between two adjacent non-operators -/
+/-- the `while` loop of `missing_token_adder`: insert `+` between two adjacent operands; a
+    closing parenthesis ends an operand (fix 'literal behind a parenthesis' in /repo) -/
 def insertPlus : Bool → List (Tok F) → List (Tok F)
   | _, [] => []
   | req, t :: ts =>
-    if t.isOp then t :: insertPlus false ts
+    if t.isOpOf .rparen then t :: insertPlus true ts
+    else if t.isOp then t :: insertPlus false ts
     else if req then .op .plus :: t :: insertPlus true ts
     else t :: insertPlus true ts
 
-def isAssignOrLParen (t : Tok F) : Bool := t.isOpOf .assign || t.isOpOf .lparen
-
-/-- The index at which `missing_token_adder` starts working (after the first `=` or `(`,
-    then after one further `(`); `none` when it returns early. -/
+/-- The index at which `missing_token_adder` starts working: behind the first `=`, else 0
+    (a parenthesis does not move the start — fix 'operands in front of the first parenthesis'
+    in /repo); `none` when it returns early. -/
 def adderStart (toks : List (Tok F)) : Option Nat :=
   if toks.isEmpty then none else
-  let i := match toks.findIdx? isAssignOrLParen with
+  let i := match toks.findIdx? (fun t => t.isOpOf .assign) with
     | some i => i + 1
     | none => 0
-  if i + 1 ≥ toks.length then none else
-  match toks[i]? with
-  | some t => if t.isOpOf .lparen then some (i + 1) else some i
-  | none => none
+  if i + 1 ≥ toks.length then none else some i
 
-/-- `missing_token_adder` (the implicit 0 only in front of a sign — fix 7a6330e in /repo) -/
+/-- `missing_token_adder` (the implicit 0 only in front of a sign at the start position) -/
 def missingTokenAdder [Num F] (toks : List (Tok F)) : List (Tok F) :=
   match adderStart toks with
   | none => toks
